@@ -95,31 +95,57 @@ theorem getNode_putChild {sv : Server} {parent : List Bytes} {p : Node} (by_ : N
 
 /-! ## `insertOrderedChild` -/
 
+/-- the state of `InsertOrderedChild` after the child has been put: counter advanced, child stored -/
+def insertOrderedPut (sv : Server) (by_ : Nat) (parent : List Bytes) (d : Option Nat) (nm : Bytes) (ctr' : Nat)
+    (nc : Bool) : Server :=
+  putChild (setNode sv parent (fun p => p.setCtr ctr')) by_ parent (Node.fresh nm d) nc
+
+/-- the parent node at that point -/
+def insertOrderedPutNode (sv : Server) (parent : List Bytes) (p : Node) (d : Option Nat) (nm : Bytes) (ctr' : Nat) : Node :=
+  (p.setCtr ctr').setKids (putKid (storedChild (setNode sv parent (fun p => p.setCtr ctr')) parent (Node.fresh nm d)) p.kids)
+
 /-- the state `InsertOrderedChild` is in when it notifies: counter advanced, child put, index entry inserted -/
 def insertOrderedPre (sv : Server) (by_ : Nat) (parent : List Bytes) (d : Option Nat) (nm : Bytes) (ctr' i : Nat)
     (nc : Bool) : Server :=
-  setNode (putChild (setNode sv parent (fun p => p.setCtr ctr')) by_ parent (Node.fresh nm d) nc) parent
+  setNode (insertOrderedPut sv by_ parent d nm ctr' nc) parent
     (fun p => p.setIndex (p.index.take i ++ [nm] ++ p.index.drop i))
 
 /-- the parent node at that point -/
 def insertOrderedNode (sv : Server) (parent : List Bytes) (p : Node) (d : Option Nat) (nm : Bytes) (ctr' i : Nat) : Node :=
-  (((p.setCtr ctr').setKids (putKid (storedChild (setNode sv parent (fun p => p.setCtr ctr')) parent (Node.fresh nm d)) p.kids)).setIndex
-    (insertAt p.index i nm))
+  (insertOrderedPutNode sv parent p d nm ctr').setIndex (insertAt p.index i nm)
+
+theorem getNode_insertOrderedPut {sv : Server} {parent : List Bytes} {p : Node} (by_ : Nat) (d : Option Nat)
+    (nm : Bytes) (ctr' : Nat) (nc : Bool) (h : getNode sv parent = some p) :
+    getNode (insertOrderedPut sv by_ parent d nm ctr' nc) parent = some (insertOrderedPutNode sv parent p d nm ctr') := by
+  unfold insertOrderedPut insertOrderedPutNode
+  have h1 : getNode (setNode sv parent (fun p => p.setCtr ctr')) parent = some (p.setCtr ctr') := by
+    rw [getNode_setNode (setCtr_name_pres ctr'), h]; rfl
+  have h2 := getNode_putChild by_ (Node.fresh nm d) nc h1
+  simpa using h2
 
 theorem getNode_insertOrderedPre {sv : Server} {parent : List Bytes} {p : Node} (by_ : Nat) (d : Option Nat)
     (nm : Bytes) (ctr' i : Nat) (nc : Bool) (h : getNode sv parent = some p) :
     getNode (insertOrderedPre sv by_ parent d nm ctr' i nc) parent =
       some (insertOrderedNode sv parent p d nm ctr' i) := by
   unfold insertOrderedPre insertOrderedNode
-  have h1 : getNode (setNode sv parent (fun p => p.setCtr ctr')) parent = some (p.setCtr ctr') := by
-    rw [getNode_setNode (setCtr_name_pres ctr'), h]; rfl
-  have h2 := getNode_putChild by_ (Node.fresh nm d) nc h1
-  rw [getNode_setIndex (fun q => q.index.take i ++ [nm] ++ q.index.drop i) h2]
-  simp [insertAt]
+  rw [getNode_setIndex (fun q => q.index.take i ++ [nm] ++ q.index.drop i)
+    (getNode_insertOrderedPut by_ d nm ctr' nc h)]
+  simp [insertAt, insertOrderedPutNode]
+
+/-- `optInsertBefore == "!Rmv"`: the child is created but not indexed, and nothing is handed to `notifyIndex` -/
+theorem insertOrderedChild_unindexed {sv : Server} {parent : List Bytes} {p : Node} (by_ : Nat) (d : Option Nat)
+    {before : Bytes} (name : Bytes) (nc : Bool) (h : getNode sv parent = some p) (hb : before = removeFromIndexName) :
+    insertOrderedChild sv by_ parent d before name nc =
+      insertOrderedPut sv by_ parent d (ordPair p name).1 (ordPair p name).2 nc := by
+  unfold insertOrderedChild
+  simp only [h]
+  show (if before = removeFromIndexName then
+      insertOrderedPut sv by_ parent d (ordPair p name).1 (ordPair p name).2 nc else _) = _
+  rw [if_pos hb]
 
 /-- the equation exposing what `InsertOrderedChild` hands to `notifyIndex` -/
 theorem insertOrderedChild_emits {sv : Server} {parent : List Bytes} {p : Node} (by_ : Nat) (d : Option Nat)
-    (before name : Bytes) (nc : Bool) (h : getNode sv parent = some p) :
+    {before : Bytes} (name : Bytes) (nc : Bool) (h : getNode sv parent = some p) (hb : before ≠ removeFromIndexName) :
     insertOrderedChild sv by_ parent d before name nc =
       notifyIndex (insertOrderedPre sv by_ parent d (ordPair p name).1 (ordPair p name).2 (insertPos p.index before) nc)
         parent (insertOrderedNode sv parent p d (ordPair p name).1 (ordPair p name).2 (insertPos p.index before))
@@ -127,29 +153,75 @@ theorem insertOrderedChild_emits {sv : Server} {parent : List Bytes} {p : Node} 
   have hg := getNode_insertOrderedPre by_ d (ordPair p name).1 (ordPair p name).2 (insertPos p.index before) nc h
   unfold insertOrderedChild
   simp only [h]
-  show (match getNode (insertOrderedPre sv by_ parent d (ordPair p name).1 (ordPair p name).2 (insertPos p.index before) nc) parent with
+  show (if before = removeFromIndexName then
+      insertOrderedPut sv by_ parent d (ordPair p name).1 (ordPair p name).2 nc else
+    match getNode (insertOrderedPre sv by_ parent d (ordPair p name).1 (ordPair p name).2 (insertPos p.index before) nc) parent with
     | some p' => notifyIndex (insertOrderedPre sv by_ parent d (ordPair p name).1 (ordPair p name).2 (insertPos p.index before) nc)
         parent p' (instrOf 'i' (insertPos p.index before) (ordPair p name).1)
     | none => insertOrderedPre sv by_ parent d (ordPair p name).1 (ordPair p name).2 (insertPos p.index before) nc) = _
-  rw [hg]
+  rw [if_neg hb, hg]
+
+/-- the parent node after `InsertOrderedChild` -/
+def insertOrderedResult (sv : Server) (parent : List Bytes) (p : Node) (d : Option Nat) (before name : Bytes) : Node :=
+  if before = removeFromIndexName then insertOrderedPutNode sv parent p d (ordPair p name).1 (ordPair p name).2
+  else insertOrderedNode sv parent p d (ordPair p name).1 (ordPair p name).2 (insertPos p.index before)
 
 theorem getNode_insertOrderedChild {sv : Server} {parent : List Bytes} {p : Node} (by_ : Nat) (d : Option Nat)
     (before name : Bytes) (nc : Bool) (h : getNode sv parent = some p) :
     getNode (insertOrderedChild sv by_ parent d before name nc) parent =
-      some (insertOrderedNode sv parent p d (ordPair p name).1 (ordPair p name).2 (insertPos p.index before)) := by
-  rw [insertOrderedChild_emits by_ d before name nc h, getNode_notifyIndex]
-  exact getNode_insertOrderedPre _ _ _ _ _ _ h
+      some (insertOrderedResult sv parent p d before name) := by
+  unfold insertOrderedResult
+  by_cases hb : before = removeFromIndexName
+  · rw [insertOrderedChild_unindexed by_ d name nc h hb, if_pos hb]
+    exact getNode_insertOrderedPut _ _ _ _ _ h
+  · rw [insertOrderedChild_emits by_ d name nc h hb, getNode_notifyIndex, if_neg hb]
+    exact getNode_insertOrderedPre _ _ _ _ _ _ h
+
+@[simp] theorem insertOrderedPutNode_index (sv : Server) (parent : List Bytes) (p : Node) (d : Option Nat) (nm : Bytes)
+    (ctr' : Nat) : (insertOrderedPutNode sv parent p d nm ctr').index = p.index := by
+  simp [insertOrderedPutNode]
 
 @[simp] theorem insertOrderedNode_index (sv : Server) (parent : List Bytes) (p : Node) (d : Option Nat) (nm : Bytes)
     (ctr' i : Nat) : (insertOrderedNode sv parent p d nm ctr' i).index = insertAt p.index i nm := by
   simp [insertOrderedNode]
 
+theorem insertOrderedPutNode_kids (sv : Server) (parent : List Bytes) (p : Node) (d : Option Nat) (nm : Bytes)
+    (ctr' : Nat) : ∃ c, c.name = nm ∧ c.index = [] ∧ c.kids = [] ∧
+      (insertOrderedPutNode sv parent p d nm ctr').kids = putKid c p.kids := by
+  refine ⟨storedChild (setNode sv parent (fun p => p.setCtr ctr')) parent (Node.fresh nm d), ?_, ?_, ?_, ?_⟩ <;>
+    simp [insertOrderedPutNode]
+
 theorem insertOrderedNode_kids (sv : Server) (parent : List Bytes) (p : Node) (d : Option Nat) (nm : Bytes)
     (ctr' i : Nat) : ∃ c, c.name = nm ∧ c.index = [] ∧ c.kids = [] ∧
       (insertOrderedNode sv parent p d nm ctr' i).kids = putKid c p.kids := by
-  refine ⟨storedChild (setNode sv parent (fun p => p.setCtr ctr')) parent (Node.fresh nm d), ?_, ?_, ?_, ?_⟩ <;>
-    simp [insertOrderedNode]
+  obtain ⟨c, h1, h2, h3, h4⟩ := insertOrderedPutNode_kids sv parent p d nm ctr'
+  exact ⟨c, h1, h2, h3, by simp [insertOrderedNode, h4]⟩
 
+/-- the parent's index after `InsertOrderedChild` -/
+def insertIndexAfter (p : Node) (before name : Bytes) : List Bytes :=
+  if before = removeFromIndexName then p.index else insertAt p.index (insertPos p.index before) (ordPair p name).1
+
+theorem insertOrderedResult_index (sv : Server) (parent : List Bytes) (p : Node) (d : Option Nat) (before name : Bytes) :
+    (insertOrderedResult sv parent p d before name).index = insertIndexAfter p before name := by
+  unfold insertOrderedResult insertIndexAfter
+  split <;> simp
+
+theorem insertOrderedResult_kids (sv : Server) (parent : List Bytes) (p : Node) (d : Option Nat) (before name : Bytes) :
+    ∃ c, c.name = (ordPair p name).1 ∧ c.index = [] ∧ c.kids = [] ∧
+      (insertOrderedResult sv parent p d before name).kids = putKid c p.kids := by
+  unfold insertOrderedResult
+  split
+  · exact insertOrderedPutNode_kids _ _ _ _ _ _
+  · exact insertOrderedNode_kids _ _ _ _ _ _ _
+
+theorem removeFromIndexName_bytes : removeFromIndexName = [33, 82, 109, 118] := by
+  unfold removeFromIndexName
+  have : "!Rmv" = String.ofList ['!', 'R', 'm', 'v'] := rfl
+  rw [this, asciiBytes _ (by decide)]
+  rfl
+
+theorem nil_ne_removeFromIndexName : ([] : Bytes) ≠ removeFromIndexName := by
+  rw [removeFromIndexName_bytes]; simp
 
 /-! ## `reorderChild` -/
 
